@@ -992,3 +992,75 @@ func usesValueOf(call *ssa.Call, v ssa.Value) bool {
 	}
 	return false
 }
+
+func init() {
+	register(&Rule{ID: "OR-3", Min: 2, Run: runOR3,
+		Doc: "the used-type list is read off the loaded tree before any compilation step rewrites it: every call chain that reaches the used-type walk (collectUserTypes) starts in the once-only loader, and there the walk dominates loader.CompileBasic (a walk made later, for instance lazily on the first UsedUserTypes call, would see allOf already expanded when Check or Validate ran first)"})
+}
+
+func runOR3(c *load.Ctx, r *report.RuleResult) {
+	const rel = "notations/jschema"
+	walk := c.Func(rel, "collectUserTypes")
+	compileBasic := c.Func(pkgLoader, "CompileBasic")
+	if walk == nil || compileBasic == nil {
+		r.Unk("anchor|collectUserTypes/CompileBasic", "", "not found")
+		return
+	}
+	// climb the static callers until a function that also calls CompileBasic (the loader step)
+	type frame struct {
+		fn   *ssa.Function
+		via  *ssa.Function // the callee through which fn reaches the walk
+		path []string
+	}
+	seen := map[*ssa.Function]bool{}
+	queue := []frame{}
+	for _, f := range findCallers(c, walk) {
+		queue = append(queue, frame{f, walk, []string{walk.Name(), f.Name()}})
+	}
+	if len(queue) == 0 {
+		r.Bad("usedtypes|never collected", c.Pos(walk.Pos()), "nothing calls the used-type walk")
+		return
+	}
+	for len(queue) > 0 {
+		fr := queue[0]
+		queue = queue[1:]
+		if seen[fr.fn] {
+			continue
+		}
+		seen[fr.fn] = true
+		key := "usedtypes|via " + load.FuncKey(fr.fn)
+		if len(callSites(fr.fn, compileBasic)) > 0 {
+			ok := true
+			for _, cb := range callSites(fr.fn, compileBasic) {
+				dom := false
+				for _, w := range callSites(fr.fn, fr.via) {
+					if dominatesInstr(w, cb) {
+						dom = true
+					}
+				}
+				if !dom {
+					ok = false
+				}
+			}
+			if ok {
+				r.OK(key, c.Pos(fr.fn.Pos()), "the walk ("+strings.Join(fr.path, " ← ")+") runs before CompileBasic in the once-only loader")
+			} else {
+				r.Bad(key, c.Pos(fr.fn.Pos()), "CompileBasic is not dominated by the used-type walk: the list would be read off a rewritten tree")
+			}
+			continue
+		}
+		callers := findCallers(c, fr.fn)
+		if fr.fn.Parent() != nil {
+			// a closure: it runs where it is created / handed over
+			callers = append(callers, fr.fn.Parent())
+		}
+		if len(callers) == 0 {
+			r.Bad(key, c.Pos(fr.fn.Pos()), fmt.Sprintf("%s reaches the used-type walk (%s) but is not part of the loader step that precedes CompileBasic: the list depends on whether the schema was compiled before", fr.fn.Name(), strings.Join(fr.path, " ← ")))
+			continue
+		}
+		r.OK(key, c.Pos(fr.fn.Pos()), "only passes the walk on to its callers")
+		for _, cl := range callers {
+			queue = append(queue, frame{cl, fr.fn, append(append([]string{}, fr.path...), cl.Name())})
+		}
+	}
+}
